@@ -14,7 +14,14 @@ Definition rel_fits (from to : Z) : bool :=
   (- 2147483648 <=? rel_disp from to) && (rel_disp from to <=? 2147483647).
 Definition rel_jump (from to : Z) : list Z := 233 :: bytes_le 4 (wrapu 32 (to - from - 5)).
 
+(* JMP [RIP+0] followed by the destination as an inline 8-byte literal: the far form of the trampoline return
+   (its destination is a CODE address, so the function-value form above would jump to the bytes stored there) *)
+Definition abs_jump_rip (to : Z) : list Z := [255; 37; 0; 0; 0; 0] ++ bytes_le 8 to.
+
 Definition origin_jump (from to : Z) : list Z :=
+  if rel_fits from to then rel_jump from to else abs_jump_rip to.
+(* the form goom emitted before the repair F15b *)
+Definition origin_jump_pre_repair (from to : Z) : list Z :=
   if rel_fits from to then rel_jump from to else abs_jump_rdx to.
 
 (* i386: MOV EDX, to ; JMP [EDX] *)
